@@ -1,1 +1,326 @@
-//! (filled in with the WXML grammar generators)
+//! proptest strategies for WXML templates and groups (sound by construction: only documented syntax).
+
+use super::expr::{self as gexpr, ExprCfg};
+use crate::model::expr::{Expr, ObjItem};
+use crate::model::wxml::*;
+use proptest::prelude::*;
+
+#[derive(Clone, Debug)]
+pub struct WxmlCfg {
+    pub depth: u32,
+    pub max_kids: usize,
+    pub expr: ExprCfg,
+    pub tis: bool,
+    pub include: bool,
+    pub slot: bool,
+    pub wxs: bool,
+    pub slot_refs: bool,
+    pub comments: bool,
+    /// attribute families to draw from
+    pub families: Vec<AttrKind>,
+    /// probability weight of dynamic values (out of 10)
+    pub dyn_weight: u32,
+    pub rich_text: bool,
+}
+
+pub fn all_families() -> Vec<AttrKind> {
+    let mut v = vec![
+        AttrKind::Plain,
+        AttrKind::Plain,
+        AttrKind::Plain,
+        AttrKind::Class,
+        AttrKind::Style,
+        AttrKind::Id,
+        AttrKind::DataHyphen,
+        AttrKind::DataColon,
+        AttrKind::Mark,
+        AttrKind::Model,
+        AttrKind::Change,
+        AttrKind::Worklet,
+        AttrKind::Generic,
+        AttrKind::ExtraAttr,
+    ];
+    for k in EvKind::ALL {
+        v.push(AttrKind::Event(k));
+    }
+    v
+}
+
+impl WxmlCfg {
+    pub fn new(depth: u32, expr_depth: u32) -> Self {
+        let mut e = ExprCfg::new(expr_depth);
+        e.edge_numbers = false;
+        e.small_numbers = true;
+        e.instanceof = false;
+        e.spread_ident = false;
+        WxmlCfg { depth, max_kids: 4, expr: e, tis: true, include: true, slot: true, wxs: true, slot_refs: false, comments: true, families: all_families(), dyn_weight: 6, rich_text: true }
+    }
+}
+
+pub const TAGS: &[&str] = &["view", "text", "div", "span", "comp-a", "x-y", "my_tag", "v1"];
+pub const PLAIN_NAMES: &[&str] = &["a0", "a1", "a2", "foo", "foo-bar", "fooBar", "hidden", "value", "bindtap", "catchtouchmove", "title", "name", "is", "data", "src", "x.y", "onload", "_u"];
+pub const DATA_HYPHEN_NAMES: &[&str] = &["foo", "foo-bar", "x1", "a-b-c"];
+pub const DATA_COLON_NAMES: &[&str] = &["fooBar", "x", "foo-bar"];
+pub const MARK_NAMES: &[&str] = &["m1", "fooBar", "k-k"];
+pub const EVENT_NAMES: &[&str] = &["tap", "touchstart", "custom-ev", "longPress"];
+pub const MODEL_NAMES: &[&str] = &["value", "checked", "foo-bar"];
+pub const CHANGE_NAMES: &[&str] = &["prop", "foo-bar", "value"];
+pub const WORKLET_NAMES: &[&str] = &["onscroll", "foo-bar"];
+pub const GENERIC_NAMES: &[&str] = &["g1", "item-comp"];
+pub const EXTRA_NAMES: &[&str] = &["e1", "foo"];
+pub const TEMPLATE_NAMES: &[&str] = &["t1", "t2", "t3"];
+pub const ITEM_NAMES: &[&str] = &["it", "x", "a", "list", "item2", "index"];
+pub const INDEX_NAMES: &[&str] = &["idx", "i", "b", "item", "k"];
+pub const MODULE_NAMES: &[&str] = &["mod", "m", "tools", "a"];
+pub const KEYS: &[&str] = &["id", "*this", "v", "k0"];
+
+fn pick(names: &'static [&'static str]) -> BoxedStrategy<String> {
+    (0..names.len()).prop_map(move |i| names[i].to_string()).boxed()
+}
+
+pub fn static_text(rich: bool) -> BoxedStrategy<String> {
+    if !rich {
+        return prop_oneof![Just("x".to_string()), Just("hello".to_string()), Just(" ".to_string()), Just("a b".to_string())].boxed();
+    }
+    let palette: Vec<char> = vec![
+        'a', 'b', 'Z', '0', '9', ' ', ' ', '\n', '\t', '\'', '"', '\\', '{', '}', '<', '>', '&', ';', '#', '=', '/', '-', '!', '\u{a0}', 'é', '中', '😀', '\u{2028}', '\r', '\u{c}', '\u{b}', '\u{85}',
+        '\u{3000}', '\u{1}',
+    ];
+    prop_oneof![
+        3 => Just("x".to_string()),
+        2 => Just(" ".to_string()),
+        1 => Just("\n  ".to_string()),
+        1 => Just("".to_string()),
+        2 => Just("hello world".to_string()),
+        6 => proptest::collection::vec(0..palette.len(), 1..8).prop_map(move |ix| ix.into_iter().map(|i| palette[i]).collect::<String>()),
+    ]
+    .boxed()
+}
+
+pub fn val(cfg: &WxmlCfg) -> BoxedStrategy<Val> {
+    let e = gexpr::expr(&cfg.expr);
+    let dw = cfg.dyn_weight;
+    let piece = prop_oneof![static_text(cfg.rich_text).prop_map(Piece::Lit), e.clone().prop_map(Piece::Bind)];
+    prop_oneof![
+        (10 - dw.min(9)) => static_text(cfg.rich_text).prop_map(Val::Static),
+        dw => e.prop_map(Val::Bind),
+        (dw / 2).max(1) => proptest::collection::vec(piece, 2..4).prop_map(|ps| Val::Mixed(ps).normalise()),
+    ]
+    .boxed()
+}
+
+fn attr(cfg: &WxmlCfg) -> BoxedStrategy<Attr> {
+    let fams = cfg.families.clone();
+    let v = val(cfg);
+    let st = static_text(false);
+    (0..fams.len(), any::<prop::sample::Index>(), proptest::option::weighted(0.85, v), st)
+        .prop_map(move |(fi, ni, v, sv)| {
+            let kind = fams[fi];
+            let names: &[&str] = match kind {
+                AttrKind::Plain => PLAIN_NAMES,
+                AttrKind::Class | AttrKind::Style | AttrKind::Id => &[""],
+                AttrKind::DataHyphen => DATA_HYPHEN_NAMES,
+                AttrKind::DataColon => DATA_COLON_NAMES,
+                AttrKind::Mark => MARK_NAMES,
+                AttrKind::Event(_) => EVENT_NAMES,
+                AttrKind::Model => MODEL_NAMES,
+                AttrKind::Change => CHANGE_NAMES,
+                AttrKind::Worklet => WORKLET_NAMES,
+                AttrKind::Generic => GENERIC_NAMES,
+                AttrKind::ExtraAttr => EXTRA_NAMES,
+            };
+            let name = names[ni.index(names.len())].to_string();
+            let val = if kind.is_static_only() {
+                Some(Val::Static(sv))
+            } else {
+                match (kind, v) {
+                    // valueless class / style / id are Note-level oddities, not documented syntax
+                    (AttrKind::Class | AttrKind::Style | AttrKind::Id, None) => Some(Val::Static(sv)),
+                    (_, v) => v,
+                }
+            };
+            Attr { kind, name, val }
+        })
+        .boxed()
+}
+
+fn dedup_attrs(attrs: Vec<Attr>, on_slot: bool) -> Vec<Attr> {
+    let mut seen = std::collections::HashSet::new();
+    attrs.into_iter().filter(|a| seen.insert(a.dup_key(on_slot))).collect()
+}
+
+fn text_node(cfg: &WxmlCfg) -> BoxedStrategy<Node> {
+    let e = gexpr::expr(&cfg.expr);
+    let piece = prop_oneof![2 => static_text(cfg.rich_text).prop_map(Piece::Lit), 3 => e.prop_map(Piece::Bind)];
+    proptest::collection::vec(piece, 1..4).prop_map(Node::Text).boxed()
+}
+
+fn opt_slot_val(cfg: &WxmlCfg) -> BoxedStrategy<Option<Val>> {
+    let e = gexpr::expr(&cfg.expr);
+    prop_oneof![
+        12 => Just(None),
+        1 => Just(Some(Val::Static("s1".into()))),
+        1 => e.prop_map(|e| Some(Val::Bind(e))),
+    ]
+    .boxed()
+}
+
+fn carrier() -> BoxedStrategy<Carrier> {
+    prop_oneof![Just(Carrier::Block), Just(Carrier::OnChild)].boxed()
+}
+
+fn leaf_node(cfg: &WxmlCfg) -> BoxedStrategy<Node> {
+    let mut alts: Vec<(u32, BoxedStrategy<Node>)> = vec![(6, text_node(cfg))];
+    if cfg.comments {
+        alts.push((1, prop_oneof![Just(" c "), Just("x"), Just("<view>"), Just("{{a}}"), Just("")].prop_map(|s: &str| Node::Comment(s.to_string())).boxed()));
+    }
+    if cfg.tis {
+        let e = gexpr::expr(&cfg.expr);
+        let is = prop_oneof![
+            4 => pick(TEMPLATE_NAMES).prop_map(Val::Static),
+            1 => (pick(TEMPLATE_NAMES), pick(TEMPLATE_NAMES), gexpr::ident_name(&cfg.expr)).prop_map(|(a, b, c)| Val::Bind(Expr::Cond(Box::new(Expr::Ident(c)), Box::new(Expr::Str(a)), Box::new(Expr::Str(b))))),
+        ];
+        let key = prop_oneof![Just("a"), Just("b"), Just("c"), Just("item"), Just("list"), Just("x")].prop_map(|s: &str| s.to_string());
+        let item = prop_oneof![
+            4 => (key, e.clone()).prop_map(|(k, v)| ObjItem::KV(k, v)),
+            3 => gexpr::ident_name(&cfg.expr).prop_map(ObjItem::Short),
+            2 => e.clone().prop_map(ObjItem::Spread),
+        ];
+        let data = proptest::option::weighted(
+            0.8,
+            proptest::collection::vec(item, 1..4).prop_map(|items| {
+                let mut seen = std::collections::HashSet::new();
+                items
+                    .into_iter()
+                    .filter(|it| match it {
+                        ObjItem::KV(k, _) | ObjItem::Short(k) => seen.insert(k.clone()),
+                        ObjItem::Spread(_) => true,
+                    })
+                    .collect::<Vec<_>>()
+            }),
+        );
+        alts.push((2, (is, data).prop_map(|(is, data)| Node::Tis(Tis { is, data })).boxed()));
+    }
+    if cfg.include {
+        alts.push((1, prop_oneof![Just("inc/a"), Just("./inc/a"), Just("/inc/a.wxml"), Just("inc/b"), Just("../inc/b")].prop_map(|s: &str| Node::Include(s.to_string())).boxed()));
+    }
+    if cfg.slot {
+        let name = prop_oneof![3 => Just(None), 2 => Just(Some(Val::Static("s1".into()))), 1 => val(cfg).prop_map(Some)];
+        let mut c2 = cfg.clone();
+        c2.families = vec![AttrKind::Plain, AttrKind::Plain, AttrKind::Id, AttrKind::DataColon, AttrKind::Mark, AttrKind::Event(EvKind::Bind)];
+        let attrs = proptest::collection::vec(attr(&c2), 0..3);
+        alts.push((
+            1,
+            (name, attrs)
+                .prop_map(|(name, attrs)| {
+                    // `name` / `slot` / `id` ... are their own families on <slot>; plain values must avoid them
+                    let attrs: Vec<Attr> = attrs.into_iter().filter(|a| !(a.kind == AttrKind::Plain && ["name", "is", "data", "src"].contains(&a.name.as_str()))).collect();
+                    Node::Slot(SlotEl { name, attrs: dedup_attrs(attrs, true), slot: None, slot_refs: vec![] })
+                })
+                .boxed(),
+        ));
+    }
+    proptest::strategy::Union::new_weighted(alts).boxed()
+}
+
+fn for_list(cfg: &WxmlCfg) -> BoxedStrategy<Val> {
+    let e = gexpr::expr(&cfg.expr);
+    prop_oneof![
+        5 => Just(Val::Bind(Expr::ident("list"))),
+        2 => Just(Val::Bind(Expr::ident("arr"))),
+        2 => Just(Val::Bind(Expr::Member(Box::new(Expr::ident("obj")), "a".into()))),
+        1 => Just(Val::Bind(Expr::ident("item"))),
+        1 => Just(Val::Bind(Expr::Member(Box::new(Expr::ident("item")), "list".into()))),
+        // list expressions are restricted to forms whose value is a data container / short string / small count:
+        // an arbitrary arithmetic expression can denote a count of billions (a legal but useless template)
+        1 => (gexpr::ident_name(&cfg.expr), gexpr::ident_name(&cfg.expr), gexpr::ident_name(&cfg.expr)).prop_map(|(c, a, b)| Val::Bind(Expr::Cond(Box::new(Expr::Ident(c)), Box::new(Expr::Ident(a)), Box::new(Expr::Ident(b))))),
+        1 => proptest::collection::vec(e.clone(), 0..4).prop_map(|v| Val::Bind(Expr::Arr(v.into_iter().map(crate::model::expr::ArrItem::Item).collect()))),
+        1 => (gexpr::ident_name(&cfg.expr), gexpr::ident_name(&cfg.expr)).prop_map(|(a, b)| Val::Bind(Expr::Index(Box::new(Expr::Ident(a)), Box::new(Expr::Ident(b))))),
+        1 => Just(Val::Static("ab".into())),
+        1 => Just(Val::Bind(Expr::Num("3".into()))),
+    ]
+    .boxed()
+}
+
+pub fn node(cfg: &WxmlCfg, depth: u32) -> BoxedStrategy<Node> {
+    if depth == 0 {
+        return leaf_node(cfg);
+    }
+    let kids = proptest::collection::vec(node(cfg, depth - 1), 0..=cfg.max_kids);
+    let el = (pick(TAGS), proptest::collection::vec(attr(cfg), 0..5), opt_slot_val(cfg), kids.clone())
+        .prop_map(|(tag, attrs, slot, kids)| Node::El(El { tag, attrs: dedup_attrs(attrs, false), slot, slot_refs: vec![], kids }))
+        .boxed();
+    let branch = (val(cfg), kids.clone(), carrier()).prop_map(|(c, kids, carrier)| Branch { cond: Some(c), kids, carrier });
+    let else_branch = (kids.clone(), carrier()).prop_map(|(kids, carrier)| Branch { cond: None, kids, carrier });
+    let if_ = (proptest::collection::vec(branch, 1..4), proptest::option::of(else_branch))
+        .prop_map(|(mut brs, e)| {
+            if let Some(e) = e {
+                brs.push(e);
+            }
+            Node::If(brs)
+        })
+        .boxed();
+    let for_ = (for_list(cfg), proptest::option::weighted(0.4, pick(ITEM_NAMES)), proptest::option::weighted(0.4, pick(INDEX_NAMES)), proptest::option::weighted(0.5, pick(KEYS)), kids.clone(), carrier())
+        .prop_map(|(list, item, index, key, kids, carrier)| {
+            // item and index must differ (the same name twice is a shadowing of item by index; allowed but confusing — keep)
+            Node::For(Box::new(ForNode { list, item, index, key, kids, carrier }))
+        })
+        .boxed();
+    let block = (opt_slot_val(cfg), kids.clone()).prop_map(|(slot, kids)| Node::Block(BlockNode { slot, slot_refs: vec![], kids })).boxed();
+    prop_oneof![
+        5 => leaf_node(cfg),
+        8 => el,
+        3 => if_,
+        3 => for_,
+        1 => block,
+    ]
+    .boxed()
+}
+
+pub fn body(cfg: &WxmlCfg) -> BoxedStrategy<Vec<Node>> {
+    proptest::collection::vec(node(cfg, cfg.depth), 1..=cfg.max_kids).prop_map(normalise_nodes).boxed()
+}
+
+pub const INLINE_SCRIPTS: &[&str] = &[
+    "module.exports = { f: function (x) { return 'f:' + x }, k: 7, o: { p: [1, 2] } }",
+    "exports.f = function (a, b) { return [a, b] }; exports.k = 'K'",
+    "module.exports = { a: 1, b: { c: 2 }, fn: function () { return this === undefined ? 'plain' : 'method' } }",
+    " exports.hi = 1 < 2 ",
+    "",
+];
+
+/// A multi-file group: entry `p` plus fixed-path companions (`inc/a`, `inc/b`, `lib/t`) that `p` may include / import.
+pub fn group(cfg: &WxmlCfg) -> BoxedStrategy<Group> {
+    let mut inner = cfg.clone();
+    inner.depth = cfg.depth.saturating_sub(1);
+    inner.include = false; // no include cycles: companions do not include
+    let mut named_cfg = inner.clone();
+    named_cfg.tis = false; // no template recursion: named bodies do not instantiate templates
+    let named = |c: &WxmlCfg| proptest::collection::vec((pick(TEMPLATE_NAMES), body(c)), 0..3);
+    let wxs = if cfg.wxs {
+        proptest::collection::vec(
+            (pick(MODULE_NAMES), 0..INLINE_SCRIPTS.len(), any::<bool>()).prop_map(|(m, i, r)| if r { Wxs::Ref { module: m, src: "/lib/s".into() } } else { Wxs::Inline { module: m, js: INLINE_SCRIPTS[i].to_string() } }),
+            0..3,
+        )
+        .boxed()
+    } else {
+        Just(vec![]).boxed()
+    };
+    let imports = proptest::collection::vec(prop_oneof![Just("lib/t"), Just("/lib/t.wxml"), Just("./lib/u"), Just("lib/u")].prop_map(|s: &str| s.to_string()), 0..3);
+    (body(cfg), named(&named_cfg), wxs, imports, body(&inner), body(&inner), named(&named_cfg), named(&named_cfg))
+        .prop_map(|(body, named, wxs, imports, inc_a, inc_b, lib_t, lib_u)| {
+            let dedup_named = |v: Vec<(String, Vec<Node>)>| {
+                let mut seen = std::collections::HashSet::new();
+                v.into_iter().filter(|(n, _)| seen.insert(n.clone())).collect::<Vec<_>>()
+            };
+            let mut seen = std::collections::HashSet::new();
+            let wxs: Vec<Wxs> = wxs.into_iter().filter(|w| seen.insert(w.module().to_string())).collect();
+            let mut files = vec![Tmpl { path: "p".into(), imports, wxs, named: dedup_named(named), body }];
+            files.push(Tmpl { path: "inc/a".into(), body: inc_a, ..Default::default() });
+            files.push(Tmpl { path: "inc/b".into(), body: inc_b, ..Default::default() });
+            files.push(Tmpl { path: "lib/t".into(), named: dedup_named(lib_t), ..Default::default() });
+            files.push(Tmpl { path: "lib/u".into(), named: dedup_named(lib_u), ..Default::default() });
+            Group { files, scripts: vec![Script { path: "lib/s".into(), js: "module.exports = { f: function (x) { return 'S:' + x }, k: 'SK', a: { b: 1 } }".into(), requires: vec![] }] }
+        })
+        .boxed()
+}
